@@ -594,6 +594,7 @@ func registerFS(ex *Executor) {
 	I["@verifTempDir"] = func(ex *Executor, st *State, cc *CallCtx, args []Val) (Val, ctl) {
 		return smt.StrC("/logs"), cNext
 	}
+	I["@verifCaptureStd"] = func(ex *Executor, st *State, cc *CallCtx, args []Val) (Val, ctl) { return nil, cNext }
 	I["@verifStdout"] = func(ex *Executor, st *State, cc *CallCtx, args []Val) (Val, ctl) {
 		total := smt.StrC("")
 		var keys []string
